@@ -8,6 +8,8 @@ def f(n, grouping, desc=12, timeout=1500, file_uri=0, meta=0):
                   unwind=max(18, n + 2), timeout=timeout, unwindset={"file_write.0": fsz + 1})
     h.what = "tiff.cpp (clang IR -> C, validated) through the HAL: set, start, %d frame(s) with symbolic width/height/type/ids/timestamps/pixels in %s, stop; independent reader over the file image" % (n, "one packet" if grouping == 2 else "one packet per frame")
     h.bounds = dict(frames=n, image_bytes=8, description_length=desc, uri="a | file://a")
+    if n >= 2:
+        h.mem_gb = 44; h.est_gb = 40  # 23 GB were not enough for two frames in separate packets
     h.unwindset["vsnprintf.0"] = 142; h.unwindset["vsnprintf.1"] = 142; h.unwindset["vsnprintf.2"] = 142
     h.unwindset["key_before.0"] = 22
     if os.environ.get("VERIF_C15_FS"):
